@@ -226,8 +226,50 @@ def yielded_payload(yields, j):
     return yields.items[c][0]
 
 
+def callback_recorder(ip, self, index, success):
+    ip.state.events.append(('FragmentSender.callback', self, index, success))
+    return None
+
+
+def check_meta_callback(ip, frame, env):
+    """ghost code at the end of one (arbitrary) iteration of the yield loop: the callback yielded with fragment `index` reports
+    for THAT fragment - it calls self.callback(index, success) once - and it does not read a variable that later iterations
+    re-assign (python closures bind late: such a callback would report for another fragment by the time it is called)"""
+    import ast
+    from pyvc import interp as I
+    key = ip.verifying_key
+    cb = frame.locals.get('meta_callback')
+    if not isinstance(cb, Closure):
+        ip.ctx.oblige('%s/loop@yield-loop:iteration/callback-reports-for-its-own-fragment' % key, z3.BoolVal(False),
+                      detail='the yielded callback is not a closure created in this iteration')
+        return
+    node = cb.node
+    params = {a.arg for a in node.args.posonlyargs + node.args.args + node.args.kwonlyargs}
+    body = node.body if isinstance(node.body, list) else [node.body]
+    free = set()
+    for b in body:
+        for n in ast.walk(b):
+            if isinstance(n, ast.Name) and isinstance(n.ctx, ast.Load) and n.id not in params:
+                free.add(n.id)
+    fn = ip.repo.func('connection.FragmentSender.build').node
+    reassigned = I.assigned_names(fn)
+    late = sorted(free & reassigned)
+    ip.ctx.oblige('%s/loop@yield-loop:iteration/callback-binds-its-fragment-index-when-created' % key, z3.BoolVal(not late),
+                  detail='the callback reads %s, which the loop re-assigns before the callback is called (late binding)' % late)
+    succ = Sym(ip.ctx.fresh('success', z3.BoolSort()), 'bool')
+    n0 = len(ip.state.events)
+    ip.call(cb, [succ], {})
+    ev = [e for e in ip.state.events[n0:] if e[0] == 'FragmentSender.callback']
+    ok = z3.BoolVal(False)
+    if len(ev) == 1 and ev[0][1] is frame.locals.get('self') and ev[0][3] is succ:
+        ok = S.term(ev[0][2], 'int') == S.term(frame.locals['index'], 'int')
+    ip.ctx.oblige('%s/loop@yield-loop:iteration/callback-reports-for-its-own-fragment' % key, ok)
+    del ip.state.events[n0:]
+
+
 @contract('connection.FragmentSender.build', props=['C06', 'C05'])
 class _:
+    hooks = {'model:connection.FragmentSender.callback': callback_recorder}
     def setup(E):
         set_limits(E)
         self = E.obj(FS, tag='self', conn=None, frag_id=E.int('frag_id', cls=SEQ, lo=1, hi=S.M), retry=E.enum(RETRY, 'retry'),
@@ -260,7 +302,7 @@ class _:
                 'stored-wire-payload-is-the-framed-fragment': lambda self, _i, j: S.implies(
                     (0 <= j) & (j < _i), S.eq(frag_at(self.payloads, j), framed(self, j, S.wrap(lst_n(self.fragments)), frag_at(self.fragments, j)))),
             },
-            havoc=['self.payloads'], havoc_kinds={'self.payloads': plain_bytes_list_kind}, yields_kind=YK, label='yield-loop'),
+            havoc=['self.payloads'], havoc_kinds={'self.payloads': plain_bytes_list_kind}, yields_kind=YK, label='yield-loop', ghost_post=check_meta_callback),
     }
     ensures = {
         'fragments-concatenate-to-the-payload': lambda self, old: S.eq(S.meas(self.fragments, 'concat'), old.payload),
